@@ -13,7 +13,7 @@ from sim.loop import VirtualLoop
 
 PROP = 'C19'
 HASH_SENSITIVE = False
-CONTAINERS = ['list', 'tuple', 'dict', 'Dict', 'dictattr', 'OrderedDict', 'UserDict', 'UserList']
+CONTAINERS = ['list', 'tuple', 'dict', 'Dict', 'dictattr', 'OrderedDict', 'UserDict', 'UserList', 'named']
 LEAF_KINDS = ['sleep', 'task', 'future', 'done', 'twostage', 'shared', 'nested', 'imm', 'custom', 'dep', 'gen']
 DELAYS = [0, 0, 1, 1, 2, 5, 3600]
 PLAIN = [None, 0, 1, 'x', 2.5, True, {'special': 'future_class'}, {'special': 'handle_class'}, {'special': 'nparray'}, {'special': 'nparray0'},
@@ -82,6 +82,7 @@ def generate(st):
         'shared_containers': sw.random() < 0.3,      # the caller refills the SAME container objects and waits again
         'kwcall': sw.random() < 0.2,                 # waiter(value=...) instead of waiter(...)
         'all_lazy': sw.random() < 0.12,              # no coroutine objects at all: every awaitable is an object with __await__, a Future or a Task
+        'rekey': sw.random() < 0.3,                  # second round: mappings get one key dropped and another added (pop / update)
         'records': sw.random() < 0.2,                # lists of dicts with one key set, written in different orders
         # somebody else in the same process waits on a structure of their own at the same time (delays of its three awaitables)
         'twin': [sw.choice(DELAYS), sw.choice(DELAYS), sw.choice(DELAYS)] if sw.random() < 0.3 else None,
@@ -129,6 +130,8 @@ def generate(st):
         n = g.choice([0, 1, 2, 2, 3, 3, 4]) if not (cfg.get('wide') and g.random() < 0.4) else g.choice([5, 6, 8, 11])
         if cfg.get('giant') and top:
             n = g.choice([511, 512, 513, 1024, 1025])
+        if c == 'named' and not (1 <= n <= 8):
+            c = 'dict'          # a record class has a handful of fields
         if cfg.get('records') and c in ('list', 'tuple') and 2 <= n <= 4 and g.random() < 0.5:
             # records: dicts with the same keys, not necessarily written in the same order
             kk = g.sample(['bid', 'ask', 'mid', 'a', 'b', 0], g.choice([2, 3]))
@@ -141,6 +144,8 @@ def generate(st):
                 items.append(sub_)
         else:
             items = [build(depth_left - 1, False) for _ in range(n)]
+        if c == 'named' and items and items[-1].get('t') == 'leaf' and g.random() < 0.5:
+            leaves[items[-1]['i']]['res'] = 'none'      # the field that has a default receives a genuine None
         node = {'t': c, 'items': items, 'id': len(made)}
         # a container may appear twice only if everything in it can be awaited twice (coroutine objects cannot)
         made.append({'id': node['id'], 'ok': _multi_ok(node, leaves)})
@@ -247,6 +252,38 @@ class _Book(dict):
 
 class _Rows(list):
     """a user's own list class"""
+
+
+_NAMED = {}
+
+
+class _Expect:
+    """expected record: its class and its fields as a plain dict"""
+
+    def __init__(self, cls, fields, seq=False):
+        self.cls, self.fields, self.seq = cls, fields, seq
+
+    def __repr__(self):
+        return '%s(%r)' % (self.cls.__name__, self.fields) if self.cls not in (list, tuple, dict) else repr(tuple(self.fields) if self.cls is tuple else self.fields)
+
+
+def _named(keys):
+    """the record class (pyg_base.named_dict) with these fields; the last field has a default"""
+    keys = tuple(keys)
+    if keys not in _NAMED:
+        import pyg_base
+        _NAMED[keys] = pyg_base.named_dict('Rec%d' % len(_NAMED), list(keys), defaults={keys[-1]: 'unknown'})
+    return _NAMED[keys]
+
+
+def _mk(node, items, keys=None):
+    t = node['t']
+    if t == 'named':
+        ks = _keys(node) if keys is None else keys
+        return _named(_keys(node))(dict(zip(ks, items)))
+    if t in ('list', 'tuple', 'UserList'):
+        return _ctor(t)(items)
+    return _ctor(t)(list(zip(_keys(node) if keys is None else keys, items)))
 
 
 def _ctor(name):
@@ -529,10 +566,7 @@ def execute(trace, ctx=None):
         if t == 'leaf':
             return make_leaf(node['i'])
         items = [build(x) for x in node['items']]
-        if t in ('list', 'tuple', 'UserList'):
-            o = _ctor(t)(items)
-        else:
-            o = _ctor(t)(list(zip(_keys(node), items)))
+        o = _mk(node, items)
         if t != 'tuple' and recording['on']:
             containers.append((o, node))
             node_obj[id(node)] = o
@@ -560,6 +594,13 @@ def execute(trace, ctx=None):
         o = node_obj[id(node)]
         if t in ('list', 'UserList'):
             o[:] = items
+        elif rekey and _keys(node) and t != 'named':
+            # the caller drops one key and adds another with pop() / update(): as many entries as before, other names
+            ks_ = _keys(node)
+            o.pop(ks_[0])
+            o.update(dict(zip(ks_[1:], items[1:])))
+            o.update({_newkey(ks_[0]): items[0]})
+            res.probe('mapping-rekeyed-between-rounds')
         else:
             o.clear()
             o.update(list(zip(_keys(node), items)))
@@ -591,9 +632,19 @@ def execute(trace, ctx=None):
                 return result_of(leaf['of'])
             return result_of(i)
         items = [expected(x) for x in node['items']]
+        # what a container must hold is stated without going through the container class's own constructor (a constructor of the
+        # library that has gone wrong would build the same wrong object on both sides)
         if t in ('list', 'tuple', 'UserList'):
-            return _ctor(t)(items)
-        return _ctor(t)(list(zip(_keys(node), items)))
+            return _Expect(_ctor(t), list(items), seq=True)
+        if t != 'named' and rekey and gen['n'] == 2 and _keys(node):
+            ks_ = _keys(node)
+            return _Expect(_ctor(t), dict(zip(ks_[1:] + [_newkey(ks_[0])], items[1:] + items[:1])))
+        return _Expect(_named(_keys(node)) if t == 'named' else _ctor(t), dict(zip(_keys(node), items)))
+
+    rekey = bool(trace['cfg'].get('rekey')) and not faulty and rounds == 2
+
+    def _newkey(k_):
+        return ('r2', k_) if isinstance(k_, tuple) else 'r2_%s' % (k_,)
 
     box = {}
 
@@ -802,6 +853,12 @@ def _same(a, b, skip=None, structure=None, leaves=None):
     """deep, container-type-strict equality; with skip: positions of faulted leaves may hold anything"""
     if skip and structure is not None:
         return _same_skip(a, structure, leaves, skip)
+    if isinstance(b, _Expect):
+        if type(a) is not b.cls:
+            return False
+        if b.seq:
+            return len(a) == len(b.fields) and all(_same(x, y) for x, y in zip(list(a), b.fields))
+        return list(a.keys()) == list(b.fields.keys()) and all(_same(a[k], b.fields[k]) for k in b.fields)
     if type(a) is not type(b):
         return False
     if _is_arr(a):
@@ -837,7 +894,7 @@ def _same_skip(val, node, leaves, skip):
         if leaf['kind'] == 'shared' and leaf.get('of') is not None:
             return _same(val, res_(leaf['of'])) or _same(val, res_(i))
         return _same(val, res_(i))
-    if type(val) is not _ctor(t):
+    if type(val) is not (_named(_keys(node)) if t == 'named' else _ctor(t)):
         return False
     if len(val) != len(node['items']):
         return False
